@@ -100,58 +100,208 @@ theorem dictOf_vals_subset (l : List (Int × Int)) : ∀ x ∈ (dictOf l).vals, 
   · simp [Dict.vals] at h
   · exact h
 
-theorem resolveItem_keys_nodup (fixed : Bool) (l r : Side) (res res' : Dict) (it : MKey × MVal)
-    (h : resolveItem fixed l r res it = .ok res') (hn : res.keys.Nodup) : res'.keys.Nodup := by
+/-! ### the dictionary branch in closed form -/
+
+theorem dictSetAll_append (d : Dict) (a b : List (Int × Int)) :
+    dictSetAll d (a ++ b) = dictSetAll (dictSetAll d a) b := by
+  simp [dictSetAll, List.foldl_append]
+
+theorem dictSetAll_nil (d : Dict) : dictSetAll d [] = d := rfl
+
+theorem dictSetAll_singleton (d : Dict) (k v : Int) : dictSetAll d [(k, v)] = dictSet d k v := rfl
+
+/-- storing the same pair twice is storing it once -/
+theorem dictSet_idem (d : Dict) (k v : Int) : dictSet (dictSet d k v) k v = dictSet d k v := by
+  have hf : ∀ p : Int × Int, (if ((if (p.1 == k) = true then (k, v) else p).1 == k) = true then (k, v)
+      else (if (p.1 == k) = true then (k, v) else p)) = (if (p.1 == k) = true then (k, v) else p) := by
+    intro p
+    by_cases e : (p.1 == k) = true
+    · simp [e]
+    · simp [e]
+  by_cases hc : d.any (fun p => p.1 == k) = true
+  · have e1 : dictSet d k v = d.map (fun p => if (p.1 == k) = true then (k, v) else p) := by
+      unfold dictSet; rw [if_pos hc]
+    have hc' : (d.map fun p => if (p.1 == k) = true then (k, v) else p).any
+        (fun p => p.1 == k) = true := by
+      obtain ⟨p, hp, e⟩ := List.any_eq_true.1 hc
+      exact List.any_eq_true.2 ⟨(k, v), List.mem_map.2 ⟨p, hp, by simp [e]⟩, by simp⟩
+    rw [e1]
+    conv_lhs => unfold dictSet
+    rw [if_pos hc', List.map_map]
+    apply List.map_congr_left
+    intro p _
+    exact hf p
+  · have e1 : dictSet d k v = d ++ [(k, v)] := by
+      unfold dictSet; rw [if_neg hc]
+    have hc' : (d ++ [(k, v)]).any (fun p => p.1 == k) = true := by simp
+    rw [e1]
+    conv_lhs => unfold dictSet
+    rw [if_pos hc', List.map_append]
+    congr 1
+    · have : ∀ p ∈ d, (p.1 == k) = false := by
+        intro p hp
+        by_contra hne
+        exact hc (List.any_eq_true.2 ⟨p, hp, by simpa using hne⟩)
+      conv_rhs => rw [← List.map_id d]
+      apply List.map_congr_left
+      intro p hp
+      simp [this p hp]
+    · simp
+
+/-- `pairItem` stores exactly `zip lidx ridx` (the early store of the `{'name': int}` branch is the same
+pair again) -/
+theorem pairItem_eq (fx : RFlags) (r : Side) (res : Dict) (lidx : List Int) (v : MVal) :
+    pairItem fx r res lidx v =
+      (match rightIdx fx r lidx.length v with
+       | .error e => .error e
+       | .ok ridx => if lidx.length ≠ ridx.length then .error .invalid
+                     else .ok (dictSetAll res (lidx.zip ridx))) := by
+  cases v with
+  | int v =>
+    simp only [pairItem, rightIdx, bind, Except.bind]
+    by_cases h1 : lidx.length = 1
+    · simp only [h1, if_true]
+      cases hn : fx.name
+      · simp
+      · simp only [if_true, List.length_singleton, ne_eq, not_true_eq_false, if_false]
+        obtain ⟨a, rfl⟩ := List.length_eq_one_iff.1 h1
+        show Except.ok (dictSetAll (dictSet res a v) [(a, v)]) = Except.ok (dictSetAll res [(a, v)])
+        rw [dictSetAll_singleton, dictSetAll_singleton, dictSet_idem]
+    · simp only [h1, if_false]
+      cases r.comp <;> simp
+  | list vs => simp [pairItem, rightIdx, bind, Except.bind]
+  | name s =>
+    simp only [pairItem, rightIdx, bind, Except.bind]
+    cases r.comp
+    · simp only [Bool.false_eq_true, if_false]
+      cases resolvePort r.inNames s <;> simp
+    · simp
+
+/-- one item of a dictionary mapping: the code stores the pairs `itemPairs` says it stands for -/
+theorem resolveItem_eq (fx : RFlags) (l r : Side) (res : Dict) (it : MKey × MVal) :
+    resolveItem fx l r res it =
+      (match itemPairs fx l r it with
+       | .error e => .error e
+       | .ok ps => .ok (dictSetAll res ps)) := by
   obtain ⟨k, v⟩ := it
   cases k with
   | int k =>
     cases v with
-    | int v => simp only [resolveItem] at h; cases h; exact dictSet_keys_nodup _ _ _ hn
-    | name s => simp only [resolveItem] at h; cases h; exact hn
-    | list vs => simp only [resolveItem] at h; cases h; exact hn
+    | int v => simp [resolveItem, itemPairs, dictSetAll_singleton]
+    | name s =>
+      simp only [resolveItem, itemPairs, leftIdx, bind, Except.bind]
+      cases fx.skip
+      · simp [dictSetAll_nil]
+      · simp only [if_true, pairItem_eq]
+        cases rightIdx fx r [k].length (.name s) with
+        | error e => rfl
+        | ok ridx => simp only []; split_ifs <;> rfl
+    | list vs =>
+      simp only [resolveItem, itemPairs, leftIdx, bind, Except.bind]
+      cases fx.skip
+      · simp [dictSetAll_nil]
+      · simp only [if_true, pairItem_eq]
+        cases rightIdx fx r [k].length (.list vs) with
+        | error e => rfl
+        | ok ridx => simp only []; split_ifs <;> rfl
   | name k =>
-    simp only [resolveItem] at h
-    split at h
-    · cases h
-    · simp only [bind, Except.bind] at h
-      split at h
-      · cases h
-      · rename_i lidx _ pr hpr
-        obtain ⟨res1, ridx⟩ := pr
-        simp only at h
-        split_ifs at h
-        cases h
-        apply dictSetAll_keys_nodup
-        -- res1 keys nodup
-        cases v with
-        | int v =>
-          simp only at hpr
-          split_ifs at hpr
-          all_goals (cases hpr; exact dictSet_keys_nodup _ _ _ hn)
-        | list vs => simp only at hpr; cases hpr; exact hn
-        | name s =>
-          simp only at hpr
-          split_ifs at hpr
-          split at hpr
-          · cases hpr
-          · cases hpr; exact hn
+    simp only [resolveItem, itemPairs, leftIdx, bind, Except.bind]
+    cases resolvePort l.outNames k with
+    | none => rfl
+    | some lidx =>
+      simp only [pairItem_eq]
+      cases rightIdx fx r lidx.length v with
+      | error e => rfl
+      | ok ridx => simp only []; split_ifs <;> rfl
 
-/-! ### inversion of `resolve` -/
+/-- **the dictionary loop in closed form**: `resolve` stores, in order, the pairs of every item -/
+theorem resolveItems_eq (fx : RFlags) (l r : Side) (items : List (MKey × MVal)) (res : Dict) :
+    resolveItems fx l r res items =
+      (match allPairs fx l r items with
+       | .error e => .error e
+       | .ok ps => .ok (dictSetAll res ps)) := by
+  induction items generalizing res with
+  | nil => simp [resolveItems, allPairs, dictSetAll_nil]
+  | cons it rest ih =>
+    simp only [resolveItems, allPairs, bind, Except.bind, resolveItem_eq]
+    cases itemPairs fx l r it with
+    | error e => rfl
+    | ok ps =>
+      simp only [ih]
+      cases allPairs fx l r rest with
+      | error e => rfl
+      | ok qs => simp [pure, Except.pure, dictSetAll_append]
 
-theorem resolveItems_keys_nodup (fixed : Bool) (l r : Side) (items : List (MKey × MVal))
+/-- the modes a port name stands for: `count` consecutive positions from the first occurrence -/
+def portModes (names : List String) (name : String) : List Int :=
+  (List.range (names.count name)).map fun (i : Nat) => Int.ofNat (names.idxOf name + i)
+
+theorem portModes_length (names : List String) (name : String) :
+    (portModes names name).length = names.count name := by simp [portModes]
+
+theorem resolvePort_eq (names : List String) (name : String) :
+    resolvePort names name = if names.count name = 0 then none else some (portModes names name) := rfl
+
+theorem resolvePort_some_iff (names : List String) (name : String) (x : List Int) :
+    resolvePort names name = some x ↔ 0 < names.count name ∧ x = portModes names name := by
+  rw [resolvePort_eq]
+  split_ifs with h
+  · constructor
+    · intro h'; cases h'
+    · rintro ⟨h', -⟩; omega
+  · constructor
+    · intro h'; cases h'; exact ⟨by omega, rfl⟩
+    · rintro ⟨-, rfl⟩; rfl
+
+theorem resolvePort_none_iff (names : List String) (name : String) :
+    resolvePort names name = none ↔ names.count name = 0 := by
+  rw [resolvePort_eq]; split_ifs with h <;> simp [h]
+
+theorem allPairs_nil (fx : RFlags) (l r : Side) : allPairs fx l r [] = .ok [] := rfl
+
+theorem allPairs_cons (fx : RFlags) (l r : Side) (it : MKey × MVal) (rest : List (MKey × MVal)) :
+    allPairs fx l r (it :: rest) =
+      (match itemPairs fx l r it with
+       | .error e => .error e
+       | .ok ps => match allPairs fx l r rest with
+         | .error e => .error e
+         | .ok qs => .ok (ps ++ qs)) := by
+  simp only [allPairs, bind, Except.bind, pure, Except.pure]
+  cases itemPairs fx l r it with
+  | error e => rfl
+  | ok ps => cases allPairs fx l r rest <;> rfl
+
+/-- the dictionary form of `resolve`, unfolded once -/
+theorem resolve_dict_eq (fx : RFlags) (l r : Side) (items : List (MKey × MVal)) :
+    resolve fx l r (.ofDict items) =
+      if typeChecks r items = false then .error .assertion
+      else match allPairs fx l r items with
+        | .error e => .error e
+        | .ok ps => match checkConsistency l.cs l.conn r.m (dictOf ps) with
+          | .ok _ => .ok (dictOf ps)
+          | .error e => .error e := by
+  simp only [resolve, bind, Except.bind, pure, Except.pure, throw, throwThe, MonadExceptOf.throw,
+    resolveItems_eq]
+  cases typeChecks r items
+  · simp
+  · simp only [Bool.not_true, Bool.false_eq_true, if_false]
+    cases allPairs fx l r items with
+    | error e => rfl
+    | ok ps =>
+      unfold dictOf
+      simp only []
+      cases checkConsistency l.cs l.conn r.m (dictSetAll [] ps) <;> rfl
+
+theorem resolveItems_keys_nodup (fixed : RFlags) (l r : Side) (items : List (MKey × MVal))
     (res res' : Dict) (h : resolveItems fixed l r res items = .ok res') (hn : res.keys.Nodup) :
     res'.keys.Nodup := by
-  induction items generalizing res with
-  | nil => simp only [resolveItems] at h; cases h; exact hn
-  | cons it rest ih =>
-    simp only [resolveItems, bind, Except.bind] at h
-    split at h
-    · cases h
-    · rename_i res1 h1
-      exact ih res1 h (resolveItem_keys_nodup fixed l r res res1 it h1 hn)
+  rw [resolveItems_eq] at h
+  split at h
+  · cases h
+  · cases h; exact dictSetAll_keys_nodup _ _ hn
 
 /-- inversion of `resolve`: an accepted mapping passed `_check_consistency` and is a dictionary -/
-theorem resolve_inv (fixed : Bool) (l r : Side) (raw : RawMap) (d : Dict)
+theorem resolve_inv (fixed : RFlags) (l r : Side) (raw : RawMap) (d : Dict)
     (h : resolve fixed l r raw = .ok d) :
     checkConsistency l.cs l.conn r.m d = .ok () ∧ d.keys.Nodup := by
   unfold resolve at h
@@ -193,7 +343,7 @@ theorem connectible_bounds {cs : Nat} {conn : List Bool} {k : Int}
   omega
 
 /-- everything `_check_consistency` guarantees, in one place -/
-theorem resolve_facts (fixed : Bool) (l r : Side) (raw : RawMap) (d : Dict)
+theorem resolve_facts (fixed : RFlags) (l r : Side) (raw : RawMap) (d : Dict)
     (h : resolve fixed l r raw = .ok d) :
     d ≠ [] ∧ d.length = r.m ∧ d.keys.Nodup ∧ d.vals.Nodup ∧
       ∀ p ∈ d, connectible l.cs l.conn p.1 = true := by
@@ -235,7 +385,7 @@ theorem nodup_map_toNat (l : List Int) (hn : l.Nodup) (h0 : ∀ x ∈ l, 0 ≤ x
 
 /-- the natural-number mapping of an accepted mapping: distinct keys inside the left circuit,
 distinct values, right size -/
-theorem resolved_nmap_facts (fixed : Bool) (l r : Side) (raw : RawMap) (d : Dict) (mp : NMap)
+theorem resolved_nmap_facts (fixed : RFlags) (l r : Side) (raw : RawMap) (d : Dict) (mp : NMap)
     (h : resolve fixed l r raw = .ok d) (hm : toNMap d = some mp) :
     mp ≠ [] ∧ mp.length = r.m ∧ mp.keys.Nodup ∧ mp.vals.Nodup ∧ (∀ k ∈ mp.keys, k < l.cs) ∧
       ∀ k ∈ mp.keys, connectible l.cs l.conn (k : Int) = true := by
@@ -439,7 +589,7 @@ theorem removePorts_subset (keep : Bool) (outp : List Port) (keys : List Nat) :
 
 /-- inversion of the monadic `compose` for an added **processor**: every intermediate computation
 succeeded and the result is assembled from them -/
-theorem compose_proc_inv (f1 f2 f3 : Bool) (l r : Side) (raw : RawMap) (keep : Bool) (res : Result)
+theorem compose_proc_inv (f1 : RFlags) (f2 f3 : Bool) (l r : Side) (raw : RawMap) (keep : Bool) (res : Result)
     (hr : r.comp = false) (h : compose f1 f2 f3 l r raw keep = .ok res) :
     ∃ d mp perm inp1 outp1 inp2,
       resolve f1 l r raw = .ok d ∧ toNMap d = some mp ∧
@@ -486,7 +636,7 @@ theorem compose_proc_inv (f1 f2 f3 : Bool) (l r : Side) (raw : RawMap) (keep : B
 /-! ### the output ports after a composition -/
 
 /-- inversion of `compose` for a bare **component** (`_add_component`) -/
-theorem compose_comp_inv (f1 f2 f3 : Bool) (l r : Side) (raw : RawMap) (keep : Bool) (res : Result)
+theorem compose_comp_inv (f1 : RFlags) (f2 f3 : Bool) (l r : Side) (raw : RawMap) (keep : Bool) (res : Result)
     (hr : r.comp = true) (h : compose f1 f2 f3 l r raw keep = .ok res) :
     ∃ d mp perm,
       resolve f1 l r raw = .ok d ∧ toNMap d = some mp ∧ genPerm mp = .ok perm ∧
@@ -527,7 +677,7 @@ theorem keys_avoid_heralds (l : Side) (keys : List Nat)
 /-- the output ports after a processor was added: the old ports minus those under the mapped modes,
 then new ports; the new herald ports are one-mode ports on `circuit_size + i`, in the order of the
 added processor's heralds, with their expected values -/
-theorem compose_proc_ports (f1 f2 f3 : Bool) (l r : Side) (raw : RawMap) (keep : Bool) (res : Result)
+theorem compose_proc_ports (f1 : RFlags) (f2 f3 : Bool) (l r : Side) (raw : RawMap) (keep : Bool) (res : Result)
     (hr : r.comp = false) (hrh : r.heralds = heraldsOf r.outp)
     (h : compose f1 f2 f3 l r raw keep = .ok res) :
     ∃ (keys : List Nat) (new : List Port), (∀ k : Nat, k ∈ keys → connectible l.cs l.conn (k : Int) = true) ∧
@@ -697,7 +847,7 @@ def permInput (l r : Side) (mp : NMap) : NMap :=
 
 /-- an accepted mapping whose right-hand values are modes of interest of a well-formed right-hand object
 is legal for `generate_permutation`, heralded modes included -/
-theorem permInput_legal (fixed : Bool) (l r : Side) (raw : RawMap) (d : Dict) (mp : NMap)
+theorem permInput_legal (fixed : RFlags) (l r : Side) (raw : RawMap) (d : Dict) (mp : NMap)
     (h : resolve fixed l r raw = .ok d) (hm : toNMap d = some mp) (hwf : RightWF r)
     (hvals : ∀ v ∈ mp.vals, v ∈ orderedRModes r) :
     permInput l r mp ≠ [] ∧ (permInput l r mp).keys.Nodup ∧ (permInput l r mp).vals.Nodup ∧
@@ -731,7 +881,7 @@ theorem permInput_legal (fixed : Bool) (l r : Side) (raw : RawMap) (d : Dict) (m
       · exact hpl v hv'
 
 /-- offset and list mappings only name modes of interest of the right-hand object -/
-theorem resolve_simple_vals (fixed : Bool) (l r : Side) (raw : RawMap) (d : Dict)
+theorem resolve_simple_vals (fixed : RFlags) (l r : Side) (raw : RawMap) (d : Dict)
     (hraw : ∀ items, raw ≠ .ofDict items) (hwf : RightWF r)
     (h : resolve fixed l r raw = .ok d) :
     ∀ v ∈ d.vals, ∃ x ∈ orderedRModes r, v = Int.ofNat x := by
@@ -766,7 +916,7 @@ theorem resolve_simple_vals (fixed : Bool) (l r : Side) (raw : RawMap) (d : Dict
     exact ⟨x, hx, e.symm⟩
   | ofDict items => exact absurd rfl (hraw items)
 
-theorem resolve_simple_toNMap (fixed : Bool) (l r : Side) (raw : RawMap) (d : Dict)
+theorem resolve_simple_toNMap (fixed : RFlags) (l r : Side) (raw : RawMap) (d : Dict)
     (hraw : ∀ items, raw ≠ .ofDict items) (hwf : RightWF r)
     (h : resolve fixed l r raw = .ok d) :
     ∃ mp, toNMap d = some mp ∧ ∀ v ∈ mp.vals, v ∈ orderedRModes r := by
@@ -893,7 +1043,7 @@ theorem intMap_vals (b : Int) (r : Side) (hwf : RightWF r) :
 theorem map_ofNat_nodup (l : List Nat) (h : l.Nodup) : (l.map Int.ofNat).Nodup :=
   List.Nodup.map (fun a b e => by simpa using e) h
 
-theorem resolve_int_eq (fixed : Bool) (l r : Side) (b : Int) :
+theorem resolve_int_eq (fixed : RFlags) (l r : Side) (b : Int) :
     resolve fixed l r (.ofInt b) =
       match checkConsistency l.cs l.conn r.m (intMap b r) with
       | .ok _ => .ok (intMap b r)
@@ -904,7 +1054,7 @@ theorem resolve_int_eq (fixed : Bool) (l r : Side) (b : Int) :
   simp only [resolve, bind, Except.bind, pure, Except.pure, e]
   cases checkConsistency l.cs l.conn r.m (intMap b r) <;> rfl
 
-theorem resolve_list_eq (fixed : Bool) (l r : Side) (ks : List Int) :
+theorem resolve_list_eq (fixed : RFlags) (l r : Side) (ks : List Int) :
     resolve fixed l r (.ofList ks) =
       if ks.length ≠ (orderedRModes r).length then .error .invalid
       else match checkConsistency l.cs l.conn r.m (dictOf (listMap ks r)) with
@@ -963,7 +1113,7 @@ theorem checkConsistency_err (cs : Nat) (conn : List Bool) (n : Nat) (d : Dict) 
   unfold checkConsistency at h
   split_ifs at h <;> cases h <;> decide
 
-theorem resolve_simple_err (fixed : Bool) (l r : Side) (raw : RawMap)
+theorem resolve_simple_err (fixed : RFlags) (l r : Side) (raw : RawMap)
     (hraw : ∀ items, raw ≠ .ofDict items) (e : Err) (h : resolve fixed l r raw = .error e) :
     e ≠ .assertion := by
   cases raw with
@@ -1015,7 +1165,7 @@ theorem transferIn_err (fp : Bool) (fl : NMap) (ports : List Port) (inp : List P
 /-- for an offset or list mapping onto a well-formed right-hand object, the only `AssertionError`
 `Processor.add` can die of is the explicit `can_compose_with` assertion on the left post-selection:
 never PERM's -/
-theorem compose_assertion_inv (f1 f2 f3 : Bool) (l r : Side) (raw : RawMap) (keep : Bool)
+theorem compose_assertion_inv (f1 : RFlags) (f2 f3 : Bool) (l r : Side) (raw : RawMap) (keep : Bool)
     (hraw : ∀ items, raw ≠ .ofDict items) (hwf : RightWF r)
     (hgp : ∀ d mp, resolve f1 l r raw = .ok d → toNMap d = some mp →
       ∃ σ, genPerm (permInput l r mp) = .ok σ)
